@@ -43,6 +43,9 @@ NoPair == [key |-> "", role |-> "", clause |-> "", prop |-> "", exclkey |-> ""]
 Shape(id, d, cfg) == [id |-> id, d |-> d, cfg |-> cfg, root |-> "Root", run |-> id,
                       group |-> "", role |-> "", gchecks |-> <<>>, pair |-> NoPair]
 GCheck(kind, prop, clause) == [k |-> kind, p |-> prop, c |-> clause]
+\* the same shape with a DOTTED proto package (acme.<pkg>.v1; type names in the descriptor read .acme.<pkg>.v1.Msg); the
+\* Go package is unchanged and nothing in the specification depends on it: the mapping is a function of message names
+Dotted(sp) == [sp EXCEPT !.id = @ \o ".dotpkg", !.run = @ \o ".dotpkg", !.d = [pkg |-> sp.d.pkg, msgs |-> sp.d.msgs, deps |-> sp.d.deps, dotted |-> TRUE]]
 
 \* ---- auxiliary messages
 Leaf == Msg("Leaf", <<Fld("Str", 1, "string")>>, <<>>)
@@ -193,7 +196,8 @@ OverrideShapes == <<
                          Msg("Root", <<Fld("Str", 1, "string"), Fld("Num", 2, "int64"), MsgF("Sub", 3, "Leaf"), Rep(Fld("Items", 4, "int64"))>>, <<>>)>>),
         [BaseCfg EXCEPT !.schematypes = <<[k |-> "Root.Str", v |-> "string"], [k |-> "Leaf.Num", v |-> "int64"]>>]) >>
 
-AllSessionShapes == OverrideShapes \o ScalarShapes \o ListShapes \o MapShapes \o ObjShapes \o OneofShapes \o EmbedShapes \o EmptyShapes \o DeepShapes \o PairShapes \o FlagShapes
+DottedSessionShapes == <<Dotted(DeepShapes[1]), Dotted(EmbedShapes[2]), Dotted(OneofShapes[2])>>
+AllSessionShapes == DottedSessionShapes \o OverrideShapes \o ScalarShapes \o ListShapes \o MapShapes \o ObjShapes \o OneofShapes \o EmbedShapes \o EmptyShapes \o DeepShapes \o PairShapes \o FlagShapes
 \* refresh histories are quadratic / cubic in the number of values: one shape per kind of coupling
 RefreshShapes == ScalarShapes \o ListShapes \o MapShapes \o ObjShapes \o OneofShapes \o EmbedShapes \o EmptyShapes \o PairShapes
 =============================================================================
